@@ -108,7 +108,7 @@ ExpireGeneric(d, now, a, kind) ==
     IN  IF Len(a) < 2 \/ Len(a) > 3 \/ ~okArg \/ ~okOpt THEN Fail(d, EArg)
         ELSE IF ~Has(d, k) THEN Res(d, RInt(0))
         ELSE IF ~pass THEN Res(d, RInt(0))
-        ELSE IF at <= now THEN Res(Del(d, k), RInt(1))
+        ELSE IF at <= now THEN Res(IF Real THEN Put(d, k, [d[k] EXCEPT !.exp = at]) ELSE Del(d, k), RInt(1))
         ELSE ResT(Put(d, k, [d[k] EXCEPT !.exp = at]), RInt(1), relk, tolk)
 
 Persist(d, a) ==
